@@ -150,7 +150,7 @@ def run(ctx):
                     res.violations += vs
     # seeded timed histories
     prof = dict(weights=dict(adv=30, post=14, frame=10, send=12, poll=12, open=6, open_ws=4, upgrade=3, disc=1, bad=1, api=1, wsclose=2), p_async=0.1)
-    for h in range(ctx.n(200, 20000)):
+    for h in range(ctx.n(200, 16000)):
         I, T, g = rng.choice(GRID)
         cfg = hist.Cfg(interval=I, timeout=T, monitor=rng.random() < 0.75, grace=g)
         ops = hist.gen_history(rng, cfg, rng.choice([12, 20, 30]), prof['weights'], 3)
@@ -163,13 +163,22 @@ def run(ctx):
             runners.append(r)
             res.count((kind, cfg.key(), tuple(map(repr, r.log))), True, 'history:' + kind)
             res.violations += vs
+        if len(runners) >= 4000:
+            flush(res, runners)
+    flush(res, runners)
+    return res
+
+
+def flush(res, runners):
+    """compare what has been run so far with the model and forget it (bounds the memory of the thorough tier)"""
     bad, errs = hist.check_histories(runners)
     res.errors += errs
     for b in bad[:20]:
         r = runners[b]
-        res.mismatches.append(dict(suite='history', case=dict(server=r.kind, cfg=r.cfg.key(), ops=r.log), impl=r.outs, model=hist.explain(r) if len(res.mismatches) < 2 else '(not shown)'))
-    res.traces = len(runners)
-    return res
+        if len(res.mismatches) < 20:
+            res.mismatches.append(dict(suite='history', case=dict(server=r.kind, cfg=r.cfg.key(), ops=r.log), impl=r.outs, model=hist.explain(r) if len(res.mismatches) < 2 else '(not shown)'))
+    res.traces += len(runners)
+    del runners[:]
 
 
 def search(ctx, res):
